@@ -4,7 +4,7 @@
 namespace sim {
 struct Net {
   enum Kind { K_ACCEPT, K_REFUSED, K_TIMEOUT, K_UNREACH };
-  struct ConnectResult { Kind kind = K_REFUSED; int64_t delay = 0; Pipe *rx = nullptr; Pipe *tx = nullptr; };
+  struct ConnectResult { Kind kind = K_REFUSED; int64_t delay = 0; Pipe *rx = nullptr; Pipe *tx = nullptr; bool immediate = false; /* a non-blocking connect that succeeds at once (loopback, local segment) */ };
   std::vector<uint32_t> interfaces{0x7f000001};
   virtual ~Net() {}
   // called when a simulated process connects; for ACCEPT the world supplies the two byte streams (client rx / client tx)
